@@ -110,7 +110,7 @@ fn weights(mode: &str) -> [usize; 30] {
         "c05" => [2, 1, 2, 2, 1, 1, 2, 1, 1, 1, 0, 0, 0, 0, 0, 0, 8, 8, 8, 8, 0, 0, 0, 0, 0, 0, 0, 0, 0, 0],
         "c07" => [4, 2, 5, 5, 4, 4, 6, 3, 1, 3, 2, 1, 1, 1, 0, 0, 2, 0, 1, 0, 0, 12, 6, 0, 0, 0, 0, 0, 6, 0],
         "c08" => [4, 2, 5, 5, 4, 4, 6, 3, 1, 3, 2, 1, 1, 0, 0, 0, 1, 0, 1, 0, 14, 0, 0, 0, 0, 0, 0, 0, 0, 0],
-        "c10" => [3, 2, 4, 4, 3, 3, 5, 4, 3, 3, 2, 1, 1, 0, 1, 1, 1, 1, 0, 0, 4, 6, 4, 5, 5, 4, 4, 4, 4, 0],
+        "c10" => [3, 2, 4, 4, 3, 3, 5, 5, 4, 3, 2, 1, 1, 0, 1, 1, 1, 1, 0, 0, 12, 6, 4, 5, 5, 4, 4, 4, 4, 0],
         "c11" => [4, 2, 5, 5, 4, 4, 6, 3, 1, 3, 2, 1, 1, 0, 0, 0, 2, 0, 1, 0, 0, 0, 0, 0, 14, 0, 0, 0, 0, 0],
         "c12" => [4, 2, 5, 5, 4, 4, 6, 3, 1, 3, 2, 1, 1, 0, 0, 0, 2, 0, 1, 0, 0, 0, 0, 0, 0, 8, 8, 8, 0, 0],
         _ => panic!("unknown bdd mode {mode}"),
@@ -866,10 +866,94 @@ pub fn run_segment<'a, T: IteTable<'a, BddPtr<'a>> + Default>(
         next_slot: 0,
     };
     for _ in 0..len {
+        if mode == "c10" {
+            // purity (C10): the same call, with the same parameters, is repeated on a freshly built copy of the
+            // whole pool in a fresh builder; both raw answers are logged side by side
+            let r0 = rng.clone();
+            let before = s.pool.clone();
+            let (sm, nv, ns) = (s.smoothed.clone(), s.nv, s.next_slot);
+            let order = s.order_now();
+            let mut o1 = Out::memory();
+            let alive = s.step(rng, mode, &mut o1);
+            let mut e = o1.mem.unwrap().pop().unwrap();
+            if e.get("panic").is_none() {
+                let slot = e.get("res").and_then(|x| x.as_u64()).map(|x| x as usize);
+                if let Some(sl) = slot {
+                    e["shape"] = json!(shape(s.pool[sl]).to_string());
+                }
+                match guarded(|| fresh_answer(&order, &before, &sm, nv, ns, r0, mode)) {
+                    Ok(f) => {
+                        for k in ["val", "model", "limbs", "nlimbs", "climbs", "shape", "panic"] {
+                            if let Some(v) = f.get(k) {
+                                e[format!("f_{k}")] = v.clone();
+                            }
+                        }
+                        e["fresh"] = json!(true);
+                    }
+                    Err(m) => e["f_panic"] = json!(m),
+                }
+            }
+            out.emit(e);
+            if !alive {
+                break;
+            }
+            continue;
+        }
         if !s.step(rng, mode, out) {
             break;
         }
     }
+}
+
+/// structure of a diagram unfolded into a tree (independent of node identities)
+fn shape(p: BddPtr) -> Value {
+    match p {
+        BddPtr::PtrTrue => json!("T"),
+        BddPtr::PtrFalse => json!("F"),
+        BddPtr::Reg(n) | BddPtr::Compl(n) => {
+            json!([n.var.value_usize(), shape(n.low), shape(n.high), matches!(p, BddPtr::Compl(_)) as u8])
+        }
+    }
+}
+
+fn copy_into<'a, 'b, T: IteTable<'b, BddPtr<'b>> + Default>(
+    b2: &'b RobddBuilder<'b, T>,
+    p: BddPtr<'a>,
+    memo: &mut HashMap<usize, BddPtr<'b>>,
+) -> BddPtr<'b> {
+    match p {
+        BddPtr::PtrTrue => BddPtr::PtrTrue,
+        BddPtr::PtrFalse => BddPtr::PtrFalse,
+        BddPtr::Reg(n) | BddPtr::Compl(n) => {
+            let addr = n as *const BddNode as usize;
+            let r = if let Some(r) = memo.get(&addr) {
+                *r
+            } else {
+                let lo = copy_into(b2, n.low, memo);
+                let hi = copy_into(b2, n.high, memo);
+                let r = b2.get_or_insert(BddNode::new(n.var, lo, hi));
+                memo.insert(addr, r);
+                r
+            };
+            if matches!(p, BddPtr::Compl(_)) { r.neg() } else { r }
+        }
+    }
+}
+
+/// run the step that `r0` determines on fresh copies of `pool` in a fresh builder (always with the
+/// cache-everything table: the cache kind is irrelevant to purity); returns its event
+fn fresh_answer(order: &[usize], pool: &[BddPtr], smoothed: &[bool], nv: usize, next_slot: usize, mut r0: Rng, mode: &str) -> Value {
+    let b2 = RobddBuilder::<AllIteTable<BddPtr>>::new(VarOrder::new(&order.iter().map(|v| VarLabel::new_usize(*v)).collect::<Vec<_>>()));
+    let mut memo = HashMap::new();
+    let p2: Vec<BddPtr> = pool.iter().map(|p| copy_into(&b2, *p, &mut memo)).collect();
+    let mut s2 = Session { b: &b2, ids: Ids::new(), pool: p2, smoothed: smoothed.to_vec(), nv, nmax: nv, next_slot };
+    let mut o = Out::memory();
+    s2.step(&mut r0, mode, &mut o);
+    let mut e = o.mem.unwrap().pop().unwrap();
+    if let Some(sl) = e.get("res").and_then(|x| x.as_u64()) {
+        e["shape"] = json!(shape(s2.pool[sl as usize]).to_string());
+    }
+    e
 }
 
 pub fn rand_cfg(rng: &mut Rng, nmax: usize, mode: &str) -> SegCfg {
